@@ -4,7 +4,7 @@ import GMGDriver.TraceDrv
 right-hand sides, smoother switch) against the decision table of `GMGModel/Setup.lean`, and the trace of the following real
 `solve()` against `Setup.instrOK`: the real solve touches only what the real setup provided (run-time instance of C20s). -/
 namespace SetupDrv
-open Drv Cycle Setup TraceDrv
+open Drv MGCycle Setup TraceDrv
 
 structure St where
   stats : Stats := {}
